@@ -483,21 +483,45 @@ def run(ck):
     # the write position survives a move: the moved-to buffer's put area begins at the source's put pointer (the storage itself is moved,
     # so the pointer stays valid) -- re-seating it at the start of the storage forgets everything written and not yet flushed
     nmv = 0
+    # member functions whose result is computed from the put pointer (written() = pptr() - data_.data(), say)
+    pp_funcs = {g_.base for g_ in prog.funcs.values() if g_.cls == "Pistache::DynamicStreamBuf" and
+                any(strip_tmpl(e.get("callee") or "") == "std::basic_streambuf::pptr" for e in g_.events("call")) and
+                any(True for _ in g_.events("return")) and not g_.base.endswith("::buffer")}
     for fn in prog.funcs.values():
         if fn.cls != "Pistache::DynamicStreamBuf" or not fn.params or "DynamicStreamBuf &&" not in (fn.params[0].get("type") or ""):
             continue
         if not (fn.base.endswith("::DynamicStreamBuf") or fn.base.endswith("::operator=")):
             continue
-        src = fn.params[0]["name"]
-        sp = [e for e in fn.calls(lambda e: strip_tmpl(e.get("callee") or "") == "std::basic_streambuf::setp" and ((e.get("recv") or {}).get("t") or "this").strip() in ("this", ""))]
-        bump = [e for e in fn.calls(lambda e: strip_tmpl(e.get("callee") or "").rsplit("::", 1)[-1] in ("pbump", "advance") and
-                                    any("pptr" in (a.get("t") or "") for a in (e.get("args") or [])))]
+        # the move operation and the private helpers of the class it hands the source to
+        reg_ = lib.region(prog, fn, within=lambda g_: g_.cls == "Pistache::DynamicStreamBuf")
+        sp, keeps = [], False
+        for g_ in reg_:
+            srcs = {p_.get("name") for p_ in g_.params if "DynamicStreamBuf" in (p_.get("type") or "")}
+            if not srcs:
+                continue
+            # locals holding the source's write position
+            posv = set()
+            for d_ in g_.events("decl"):
+                ic = strip_tmpl(d_.get("icall") or "")
+                refs_ = [strip_tmpl(r_) for r_ in (d_.get("refs") or [])]
+                if (ic == "std::basic_streambuf::pptr" or ic in pp_funcs or "c:std::basic_streambuf::pptr" in refs_ or any(r_[2:] in pp_funcs for r_ in refs_ if r_.startswith("c:"))) \
+                        and any(("v:" + s_) in refs_ for s_ in srcs):
+                    posv.add(d_["var"])
+            for e in g_.calls(lambda e: strip_tmpl(e.get("callee") or "") == "std::basic_streambuf::setp" and ((e.get("recv") or {}).get("t") or "this").strip() in ("this", "")):
+                a0 = re.sub(r"\s+", "", (e.get("args") or [{}])[0].get("t") or "")
+                if a0 in ("nullptr", "NULL", "0"):
+                    continue
+                sp.append(e)
+                if any(a0 == "%s.pptr()" % s_ for s_ in srcs) or any(re.search(r"\b%s\b" % re.escape(v_), a0) for v_ in posv):
+                    keeps = True
+            if [e for e in g_.calls(lambda e: strip_tmpl(e.get("callee") or "").rsplit("::", 1)[-1] in ("pbump", "advance") and
+                                   any(("pptr" in (a.get("t") or "")) or any(re.search(r"\b%s\b" % re.escape(v_), a.get("t") or "") for v_ in posv) for a in (e.get("args") or [])))]:
+                keeps = True
         if not sp:
             continue
         nmv += 1
-        keeps = any(re.sub(r"\s+", "", (e.get("args") or [{}])[0].get("t") or "") in ("%s.pptr()" % src,) for e in sp) or bool(bump)
         ck.ob("C05-R4", "DynamicStreamBuf/%s/move-keeps-the-write-position" % ("move-assignment" if fn.base.endswith("operator=") else "move-constructor"), keeps, sp[0].loc, fn,
-              "the put area of the moved-to buffer starts at %s.pptr()" % src if keeps else
+              "the put area of the moved-to buffer starts at the source's write position" if keeps else
               "after the move the put area starts at `%s`: what was written to the source and not yet flushed (status line, headers, pending chunks) is overwritten by the next write"
               % ((sp[0].get("args") or [{}])[0].get("t") or "")[:50])
     ck.require(nmv >= 2, "DynamicStreamBuf move operations that re-seat the put area: %d" % nmv)
